@@ -20,6 +20,7 @@ import (
 	"github.com/conduitio/conduit/pkg/foundation/log"
 	"github.com/conduitio/conduit/pkg/foundation/metrics/noop"
 	"github.com/conduitio/conduit/pkg/lifecycle-poc/funnel"
+	"github.com/conduitio/conduit/pkg/plugin"
 	"verif/harness/gen"
 )
 
@@ -79,6 +80,11 @@ type env struct {
 	current    int  // branch that last passed its gate (serial mode)
 	nonserial  bool // a branch event arrived while another branch was the running one
 	conc       bool // real concurrency: no gating, random yields
+	stopMode   bool // component funnelstop: Teardown is an event, a graceful Stop arrives at stopAt
+	stopAt     int  // number of log events after which Worker.Stop is called
+	stopFn     func()
+	stopOnce   sync.Once
+	stopFired  bool
 }
 
 func (e *env) emit(task int, s string) {
@@ -95,6 +101,10 @@ func (e *env) emit(task int, s string) {
 	}
 	e.log = append(e.log, s)
 	e.owner = append(e.owner, b)
+	if e.stopMode && e.stopFn != nil && len(e.log) >= e.stopAt {
+		fn := e.stopFn
+		e.stopOnce.Do(func() { e.stopFired = true; go fn() })
+	}
 }
 
 // fanState serialises the branches of ONE fan-out invocation in a chosen order. The process runs
@@ -253,12 +263,20 @@ type fakeSource struct {
 	batches [][]rec // nil: use the case's batches
 	acks    []int   // log indices of this source's A events
 	inAck   int     // Source.Ack calls in flight
+	tornDown bool
 }
 
 func (s *fakeSource) ID() string                 { return "t" + strconv.Itoa(s.id) }
 func (s *fakeSource) Open(context.Context) error { return nil }
 func (s *fakeSource) Errors() <-chan error       { return nil }
 func (s *fakeSource) Teardown(context.Context) error {
+	if s.e.stopMode {
+		s.e.mu.Lock()
+		s.tornDown = true
+		s.e.log = append(s.e.log, "T")
+		s.e.owner = append(s.e.owner, -1)
+		s.e.mu.Unlock()
+	}
 	return nil
 }
 
@@ -288,6 +306,13 @@ func (s *fakeSource) Ack(_ context.Context, ps []opencdc.Position) error {
 		parts[i] = posOf(p).String()
 	}
 	s.e.mu.Lock()
+	if s.tornDown {
+		// the plugin is gone: the ack is lost (the real connector.Source returns plugin.ErrPluginNotRunning)
+		s.e.log = append(s.e.log, "X[late-ack]")
+		s.e.owner = append(s.e.owner, -1)
+		s.e.mu.Unlock()
+		return plugin.ErrPluginNotRunning
+	}
 	overlap := s.inAck > 0
 	s.inAck++
 	k := 0
@@ -671,7 +696,7 @@ func classify(err error) string {
 }
 
 func runCase(c *fcase, r *gen.Rand, o *gen.Out, conc bool) (line, res string, nontrivial bool) {
-	e := &env{c: c, gen: r != nil, branchOf: map[int]int{}, o: o, conc: conc}
+	e := &env{c: c, gen: r != nil, branchOf: map[int]int{}, o: o, conc: conc, stopMode: c.stopAt > 0, stopAt: c.stopAt}
 	if r != nil {
 		e.seed = r.U64()
 		e.orderRng = gen.New(r.U64())
@@ -702,6 +727,17 @@ func runCase(c *fcase, r *gen.Rand, o *gen.Out, conc bool) (line, res string, no
 		return c.line(), "new-worker-error", false
 	}
 	result := ""
+	stopped := make(chan struct{})
+	if e.stopMode {
+		e.stopFn = func() {
+			defer close(stopped)
+			// a graceful stop as lifecycle-poc issues it: Worker.Stop takes the processing lock,
+			// sets the stop flag and tears the source down
+			if err := w.Stop(context.Background()); err != nil {
+				e.emit(-1, "X[stop-error]")
+			}
+		}
+	}
 	func() {
 		defer func() {
 			if p := recover(); p != nil {
@@ -710,6 +746,19 @@ func runCase(c *fcase, r *gen.Rand, o *gen.Out, conc bool) (line, res string, no
 		}()
 		result = classify(w.Do(context.Background()))
 	}()
+	if e.stopMode {
+		e.mu.Lock()
+		fired := e.stopFired
+		e.mu.Unlock()
+		if fired {
+			select {
+			case <-stopped:
+			case <-time.After(5 * time.Second):
+				result += " stop-hang"
+			}
+		}
+		_ = w.Close(context.Background())
+	}
 	nb := e.nb
 	if r != nil && !conc {
 		c.orders = e.ordersSeen
